@@ -48,11 +48,25 @@ def mk_range(s, e, form):
     return AddrRange(start=s, end=e)
 
 
-def impl_trim(rules, forms=None):
-    rm = RouteMap(name="t", rules=[RouteMapRule(dest=SimpleId(id=d), addr_range=mk_range(s, e, (forms or [0] * len(rules))[k]))
-                                   for k, (d, s, e) in enumerate(rules)])
+def impl_trim(rules, forms=None, mode=0):
+    """mode 0: plain ports; 1: ports as coordinates that differ in `port_id` only; 2: the table is built from the
+    first half of the rules and the rest is appended before `trim()` is called"""
+    from floogen.model.routing import Coord
+
+    def dest(d):
+        return Coord(x=1, y=0, port_id=d) if mode == 1 else SimpleId(id=d)
+
+    def back(o):
+        return o.port_id if mode == 1 else o.id
+    mk = [RouteMapRule(dest=dest(d), addr_range=mk_range(s, e, (forms or [0] * len(rules))[k]))
+          for k, (d, s, e) in enumerate(rules)]
+    if mode == 2 and len(mk) >= 2:
+        rm = RouteMap(name="t", rules=mk[:len(mk) // 2])
+        rm.rules.extend(mk[len(mk) // 2:])
+    else:
+        rm = RouteMap(name="t", rules=mk)
     rm.trim()
-    return [[r.dest.id, r.addr_range.start, r.addr_range.end, r.addr_range.size] for r in rm.rules]
+    return [[back(r.dest), r.addr_range.start, r.addr_range.end, r.addr_range.size] for r in rm.rules]
 
 
 def decode(rules, i):
@@ -126,8 +140,10 @@ class C16Runner:
                     raise RuntimeError(r["error"])
                 stats["evaluated"] += 1
                 distinct.add(tuple(c))
+                forms = [(stats["evaluated"] + 7 * k) % 5 for k in range(len(c))]
+                mode = stats["evaluated"] % 3
                 try:
-                    it = impl_trim(c, [(stats["evaluated"] + 7 * k) % 5 for k in range(len(c))])
+                    it = impl_trim(c, forms, mode=mode)
                 except Exception as e:  # pylint: disable=broad-except
                     it = [["trim raised " + type(e).__name__, 0, 0, 0]]
                 # the property, decided on the implementation's result
@@ -140,7 +156,7 @@ class C16Runner:
                 if not ok and bad is None:
                     bad = c
                     f = {"claim": "trim-changes-decoding", "site": str(c), "detail": f"trim -> {it}"}
-                    rep.finding(f, {"property": pid, "finding": f, "rules": c})
+                    rep.finding(f, {"property": pid, "finding": f, "rules": c, "forms": forms, "mode": mode})
                 if r["trim"] != it or not r["noOverlap"]:
                     stats["model-mismatch"] += 1
                     if len(samples) < 8:
@@ -159,10 +175,17 @@ class C16Runner:
 
     def replay(self, pid, payload, rep):
         c = [tuple(x) for x in payload["rules"]]
-        it = impl_trim(c)
+        try:
+            it = impl_trim(c, payload.get("forms"), mode=payload.get("mode", 0))
+        except Exception as e:  # pylint: disable=broad-except
+            it = [["trim raised " + type(e).__name__, 0, 0, 0]]
         print("trim ->", it)
         pts = sorted({x for _, s, e in c for x in (s - 1, s, e - 1, e)})
-        if not all(sorted(decode(c, i)) == sorted(decode(it, i)) for i in pts):
+        srt = sorted(it, key=lambda x: x[1])
+        ok = all(sorted(decode(c, i)) == sorted(decode(it, i)) for i in pts) and \
+            all(a[2] <= b[1] for a, b in zip(srt, srt[1:])) and all(x[3] == x[2] - x[1] for x in it) and \
+            not any(a[0] == b[0] and a[2] == b[1] for a in it for b in it)
+        if not ok:
             rep.finding(payload["finding"], payload)
         return rep.exit_code()
 
